@@ -85,6 +85,9 @@ pub struct ScriptBody {
     pub hang_at_end: bool,
     /// when set, `size_hint()` is exact (a peer that announces its body size, e.g. content-length)
     pub sized: bool,
+    /// when set, `is_end_stream()` is exact: true as soon as nothing is left to hand out (what hyper's HTTP/2
+    /// body and `Full` report after their last frame)
+    pub eos: bool,
 }
 impl ScriptBody {
     pub fn new(steps: Vec<BodyStep>) -> Self {
@@ -93,6 +96,7 @@ impl ScriptBody {
             probe: BodyProbe::default(),
             hang_at_end: false,
             sized: false,
+            eos: false,
         }
     }
 }
@@ -123,6 +127,9 @@ impl Body for ScriptBody {
             Some(BodyStep::Trailers(t)) => Poll::Ready(Some(Ok(Frame::trailers(t)))),
             Some(BodyStep::Err(s)) => Poll::Ready(Some(Err(s))),
         }
+    }
+    fn is_end_stream(&self) -> bool {
+        self.eos && !self.hang_at_end && self.steps.is_empty()
     }
     fn size_hint(&self) -> http_body::SizeHint {
         if !self.sized {
